@@ -18,13 +18,13 @@ import zlib
 
 import typedpy
 from typedpy import (Structure, ImmutableStructure, Partial, AllFieldsRequired, Extend, Omit, Pick,
-                     ImmutableField, String, Integer, Field)
+                     ImmutableField, String, Integer, Field, Deserializer)
 from typedpy.commons import Constant
 from typedpy.structures import (AbstractStructure, FinalStructure, keys_of, TypedPyDefaults)
 from inspect import Parameter
 
 from .. import dump, gen
-from .construct import make_ctx, err_name
+from .construct import make_ctx, err_name, rename_inline
 
 BUILTIN_BASES = {"Structure": Structure, "ImmutableStructure": ImmutableStructure,
                  "FinalStructure": FinalStructure, "AbstractStructure": AbstractStructure}
@@ -693,6 +693,8 @@ class Env:
         self.classes = dict(BUILTIN_BASES)
         self.field_classes = {"Field": Field, "ImmutableField": ImmutableField, "String": String, "Integer": Integer}
         self.mode = case.get("mode", "type")
+        # the faults stream repeats the hierarchy of the case before it and appends ~40 near-identical one-field classes
+        self.faults_stream = case.get("stream") == "faults"
 
 
 def make_field(e, env):
@@ -955,6 +957,205 @@ def first_owner(cls, name):
     return None
 
 
+def dump_struct(cls, ctx):
+    """the real class as the bridge (Sem/DefineBridge.lean `ClassDef.toStruct`) must render it: the Field members
+    (Constants are not validated fields) in constructor-signature order, the parameters the signature demands,
+    `**kwargs`, flags as getattr finds them, defaults, ImmutableField members, definition order, known subclasses;
+    `reqOrder` is the order of the required parameters in the running interpreter (a Python set: the oracle)"""
+    fields = {n: f for n, f in cls.get_all_fields_by_name().items() if not isinstance(f, Constant)}
+    params = cls.__signature__.parameters
+    sig = [n for n in params if n in fields]
+    order = sig + [n for n in fields if n not in sig]
+    req_order = [n for n, p in params.items() if p.kind != Parameter.VAR_KEYWORD and p.default is Parameter.empty]
+    decl = {"k": "struct", "name": cls.__name__, "required": sorted(req_order),
+            "addl": any(p.kind == Parameter.VAR_KEYWORD for p in params.values()),
+            "fields": [[n, dump.dump_field(fields[n], ctx)] for n in order]}
+    if getattr(cls, "_ignore_none", False):
+        decl["ignoreNone"] = True
+    if getattr(cls, "_immutable", False):
+        decl["immutable"] = True
+    defaults = [[n, dump.dump_value(f._default() if callable(f._default) else f._default, ctx)]
+                for n, f in fields.items() if getattr(f, "_default", None) is not None]
+    if defaults:
+        decl["defaults"] = defaults
+    out = {"decl": strip_decl(decl), "order": order, "defOrder": list(fields), "reqOrder": req_order,
+           "immFields": sorted(n for n, f in fields.items() if isinstance(f, ImmutableField)),
+           "accepts": sorted({c.__name__ for c in ctx.classes.values()
+                              if isinstance(c, type) and issubclass(c, cls)} | {cls.__name__})}
+    # on the domain of harness/dump.dump_class (no Constants, _required = the signature's required parameters) the two
+    # abstraction functions must agree: the bridge is what the value-level suites get from dump_class
+    if len(fields) == len(cls.get_all_fields_by_name()) and sorted(set(cls._required)) == sorted(req_order) \
+            and bool(getattr(cls, "_additional_properties", TypedPyDefaults.additional_properties_default)) == decl["addl"]:
+        out["dump_class_agrees"] = strip_decl(dump.dump_class(cls, ctx)) == out["decl"]
+    return out
+
+
+def ctor_probes(cls, env, vg):
+    """keyword-argument lists for `cls(**kw)`: valid by construction, one field replaced by a boundary neighbour /
+    a value of another type / None, one required argument missing, an undeclared keyword, a Constant passed"""
+    fields = {n: f for n, f in cls.get_all_fields_by_name().items() if not isinstance(f, Constant)}
+    try:
+        decls = [[n, dump.dump_field(f, env.ctx)] for n, f in fields.items()]
+    except Exception:
+        return []
+    params = cls.__signature__.parameters
+    req = [n for n, p in params.items() if p.kind != Parameter.VAR_KEYWORD and p.default is Parameter.empty]
+    d = {"fields": decls, "required": req, "addl": False}
+    kws = []
+    for _ in range(2):
+        kw = vg.valid_kw(d)
+        if kw is not gen.NOVALUE:
+            kws.append(kw)
+    base = kws[0] if kws else None
+    if base is not None and decls:
+        name, fd = vg.rng.choice(decls)
+        others = [kv for kv in base if kv[0] != name]
+        cands = [v for v in vg.boundary(fd)[:6] if v is not gen.NOVALUE] + vg.rng.sample(vg.confusion(), 2)
+        kws.append(others + [[name, vg.rng.choice(cands)]])
+        kws.append(others + [[name, None]])
+        kws.append(others)
+        r = vg.rng.random()
+        if r < 0.5:
+            kws.append(base + [["zz_extra", vg.rng.choice([1, None, "s"])]])
+        elif getattr(cls, "_constants", None):
+            kws.append(base + [[vg.rng.choice(sorted(cls._constants)), 1]])
+    elif base is None and not req:
+        kws.append([])
+    return kws
+
+
+def ctor_run(cls, env, vg):
+    out = []
+    for kw in ctor_probes(cls, env, vg):
+        try:
+            loaded = {k: dump.load_value(v, env.ctx) for k, v in kw}
+        except Exception:
+            continue
+        actual = [[k, rename_inline(dump.dump_value(v, env.ctx), env.ctx)] for k, v in loaded.items()]
+        try:
+            x = cls(**loaded)
+            r = {"ok": rename_inline(dump.dump_value(x, env.ctx), env.ctx)}
+        except Exception as e:
+            r = {"err": err_name(e), "msg": str(e)[:200]}
+        rec = {"kw": actual, "res": r}
+        if len(out) < 2 or is_abstract(cls):
+            rec["via"] = run_entries(cls, actual, env)
+        out.append(rec)
+    return out
+
+
+ENTRIES = ["ctor", "fromOther", "trustFlag", "trustedKw", "trustedMap", "deserTrusted"]
+
+
+def is_abstract(cls):
+    return cls is AbstractStructure or any(b is AbstractStructure for b in cls.__bases__)
+
+
+def run_entries(cls, kw_wire, env):
+    """every class-level way of obtaining an instance of `cls` from the same keyword arguments: constructor,
+    from_other_class(mapping), class-level trust flag + constructor, from_trusted_data(**kw) / (mapping), trusted
+    deserialization.  -> {entry: {"ok": class name} | {"err": exception class, "abstract": refusal mentions abstract}}"""
+    def load():
+        return {k: dump.load_value(v, env.ctx) for k, v in kw_wire}
+
+    def attempt(f):
+        try:
+            x = f()
+            return {"ok": type(x).__name__}
+        except Exception as e:
+            return {"err": err_name(e), "abstract": "abstract" in str(e)}
+
+    def with_flag():
+        had = "_trust_supplied_values" in cls.__dict__
+        cls.trust_supplied_values(True)
+        try:
+            return cls(**load())
+        finally:
+            if not had:
+                del cls._trust_supplied_values
+
+    try:
+        load()
+    except Exception:
+        return None
+    return {"ctor": attempt(lambda: cls(**load())),
+            "fromOther": attempt(lambda: cls.from_other_class(load())),
+            "trustFlag": attempt(with_flag),
+            "trustedKw": attempt(lambda: cls.from_trusted_data(**load())),
+            "trustedMap": attempt(lambda: cls.from_trusted_data(load())),
+            "deserTrusted": attempt(lambda: Deserializer(cls).deserialize(load(), direct_trusted_mapping=True))}
+
+
+def cast_to_abstract_obs(cls, ctor, env):
+    """an instance of a concrete class cast to each of its abstract ancestors must be refused"""
+    out = []
+    targets = [a for a in cls.__mro__[1:] if isinstance(a, type) and issubclass(a, Structure) and is_abstract(a)]
+    if not targets or is_abstract(cls):
+        return out
+    for c in ctor:
+        if "ok" not in c["res"]:
+            continue
+        try:
+            x = cls(**{k: dump.load_value(v, env.ctx) for k, v in c["kw"]})
+        except Exception:
+            continue
+        for a in targets:
+            try:
+                y = x.cast_to(a)
+                out.append({"target": a.__name__, "got": type(y).__name__})
+            except TypeError as e:
+                if "abstract" not in str(e):
+                    out.append({"target": a.__name__, "err": str(e)[:120]})
+            except Exception as e:
+                out.append({"target": a.__name__, "err": f"{type(e).__name__}: {e}"[:120]})
+        break
+    return out
+
+
+def is_abstract_src(src):
+    return "AbstractStructure" in src["bases"]
+
+
+def sig_required(cls):
+    return {n for n, p in cls.__signature__.parameters.items()
+            if p.kind != Parameter.VAR_KEYWORD and p.default is Parameter.empty}
+
+
+def base_accepts_obs(cls, ctor, env):
+    """C14 'inheritance only adds strictness', executed: keyword arguments the subclass constructor accepted,
+    restricted to the fields of a base, must be accepted by the base's constructor.  Judged where the statement
+    applies (theorem C14.sub_accepts_base_accepts): every field of the base is the same Field object in the
+    subclass (no redeclaration on the way), the base demands no parameter the subclass does not (else the
+    required-not-superset findings apply), the subclass does not switch _ignore_none on, the base is not abstract."""
+    out = []
+    sub_fields = cls.get_all_fields_by_name()
+    for b in cls.__mro__[1:]:
+        if not (isinstance(b, type) and issubclass(b, Structure)) or b in BUILTIN_BASES.values():
+            continue
+        if any(x is AbstractStructure for x in b.__bases__):
+            continue
+        bf = {n: f for n, f in b.get_all_fields_by_name().items() if not isinstance(f, Constant)}
+        if any(sub_fields.get(n) is not f for n, f in bf.items()):
+            continue
+        if not sig_required(b) <= sig_required(cls):
+            continue
+        if getattr(cls, "_ignore_none", False) and not getattr(b, "_ignore_none", False):
+            continue
+        for c in ctor:
+            if "ok" not in c["res"]:
+                continue
+            try:
+                kw = {k: dump.load_value(v, env.ctx) for k, v in c["kw"] if k in bf}
+            except Exception:
+                continue
+            try:
+                b(**kw)
+            except Exception as e:
+                out.append({"base": b.__name__, "kw": [kv for kv in c["kw"] if kv[0] in bf],
+                            "err": err_name(e), "msg": str(e)[:160]})
+    return out
+
+
 def observe_define(st, cls, env, vg):
     """C14 observations on a freshly defined real class"""
     obs = {"bases": []}
@@ -1103,7 +1304,32 @@ def run_impl(case):
     finally:
         TypedPyDefaults.block_unknown_consts = saved[0]
         Structure.set_block_non_typedpy_field_assignment(saved[1])
-    return {"steps": results}
+    return {"steps": results, "accepts": final_accepts(env)}
+
+
+def add_ctor(res, cls, env, vg, skip=False):
+    """bridge view of the new class + constructor runs (correspondence of Sem/DefineBridge.lean); skipped in the
+    faults stream (it repeats the hierarchy of the case before it and appends many near-identical one-field classes; one
+    variant overwrites one of Structure's own methods with a bool / list / dict while the guard is off, so its
+    constructor cannot run)"""
+    if skip:
+        res["struct"], res["ctor"] = None, []
+        return
+    try:
+        res["struct"] = dump_struct(cls, env.ctx)
+    except Exception:
+        res["struct"] = None      # a member outside the declaration vocabulary
+    res["ctor"] = ctor_run(cls, env, vg) if res["struct"] else []
+
+
+def final_accepts(env):
+    out = []
+    for n, c in env.classes.items():
+        if n in BUILTIN_BASES or not (isinstance(c, type) and issubclass(c, Structure)):
+            continue
+        out.append([n, sorted(d.__name__ for k, d in env.classes.items()
+                              if isinstance(d, type) and issubclass(d, c))])
+    return out
 
 
 def run_step(st, env, vg):
@@ -1135,6 +1361,9 @@ def run_step(st, env, vg):
         res["obs"] = observe_define(st, cls, env, vg)
         after = [json.dumps(dump_cls(b, env.ctx), sort_keys=True) for b in bases]
         res["obs"]["bases_unchanged"] = before == after
+        add_ctor(res, cls, env, vg, skip=env.faults_stream)
+        res["obs"]["base_rejects"] = base_accepts_obs(cls, res["ctor"], env)
+        res["obs"]["cast_to_abstract"] = cast_to_abstract_obs(cls, res["ctor"], env)
         return res
     if op == "derive":
         if st["source"] not in env.classes:
@@ -1153,6 +1382,7 @@ def run_step(st, env, vg):
         res = {"ok": dump_cls(cls, env.ctx)}
         res["obs"] = observe_derive(st, source, cls, env, vg, before)
         res["obs"]["source_unchanged"] = before == fingerprint(source, env, probes)
+        add_ctor(res, cls, env, vg)
         return res
     if op == "fieldclass":
         if any(b not in env.field_classes for b in st["bases"]):
@@ -1164,11 +1394,12 @@ def run_step(st, env, vg):
         env.field_classes[st["name"]] = cls
         return {"ok": [c.__name__ for c in cls.__mro__ if c.__name__ in env.field_classes]}
     if op == "abstract":
+        via = {"[]": run_entries(AbstractStructure, [], env), "x=1": run_entries(AbstractStructure, [["x", 1]], env)}
         try:
             AbstractStructure()
-            return {"ok": "instantiated"}
+            return {"ok": "instantiated", "via": via}
         except TypeError as e:
-            return {"err": "TypeError", "msg": str(e)[:100]}
+            return {"err": "TypeError", "msg": str(e)[:100], "via": via}
     raise ValueError(op)
 
 
@@ -1176,6 +1407,7 @@ def run_step(st, env, vg):
 
 def line(case, impl):
     steps = []
+    ctor_values = []
     for st, r in zip(case["steps"], impl.get("steps", [])):
         if st["op"] == "abstract":
             steps.append({"op": "instantiate", "cls": "AbstractStructure", "kw": []})
@@ -1188,8 +1420,13 @@ def line(case, impl):
             s["src"] = dict(st["src"], entries=effective_entries(st["src"]["entries"]))
         if st["op"] == "derive" and "ok" in r and r["ok"]:
             s["impl"] = {"fields": r["obs"]["fields"], "required": r["obs"]["required"]}
+        if st["op"] in ("define", "derive") and r.get("struct"):
+            s["reqOrder"] = r["struct"]["reqOrder"]
+            s["ctor"] = [c["kw"] for c in r["ctor"]]
+            ctor_values.append(s["ctor"])
         steps.append(s)
-    return {"suite": case["suite"], "guards": case["guards"], "steps": steps, "re": case.get("re", [])}
+    re_tab = gen.re_table(case["steps"], [x for x in gen.STRINGS], ctor_values) if ctor_values else case.get("re", [])
+    return {"suite": case["suite"], "guards": case["guards"], "steps": steps, "re": re_tab}
 
 
 def effective_entries(entries):
@@ -1231,6 +1468,9 @@ def correspondence(case, impl, model):
         if st["op"] == "abstract":
             if ("ok" in r) != ("ok" in m):
                 return f"{what}: AbstractStructure() model {m} real {r}"
+            msg = via_correspondence(what, "[]", (r.get("via") or {}).get("[]"), m.get("via"), [])
+            if msg:
+                return msg
             continue
         if "err" in r:
             if "err" not in m:
@@ -1250,9 +1490,87 @@ def correspondence(case, impl, model):
                 diff = [k for k in a if a[k] != b[k]]
                 return (f"{what}: class differs in {diff}: model=" + json.dumps({k: a[k] for k in diff})[:500]
                         + " real=" + json.dumps({k: b[k] for k in diff})[:500])
+            msg = bridge_correspondence(what, r, m)
+            if msg:
+                return msg
         if st["op"] == "fieldclass" and m["ok"] != r["ok"]:
             return f"{what}: field-class MRO differs: model {m['ok']} real {r['ok']}"
+    if "accepts" in impl and "accepts" in model:
+        ma = {n: a for n, a in model["accepts"]}
+        for n, a in impl["accepts"]:
+            if n in ma and ma[n] != a:
+                return f"subclasses of {n} (accepts) differ: model {ma[n]} real {a}"
     return None
+
+
+def bridge_correspondence(what, r, m):
+    """Sem/DefineBridge.lean: the FieldDecl.struct of the class and `cls(**kw)` through it"""
+    rs, ms = r.get("struct"), m.get("struct")
+    if not rs or not ms:
+        return None
+    if rs.get("dump_class_agrees") is False:
+        return f"{what}: harness dump_class and the bridge view of the real class differ"
+    md = strip_decl(ms["decl"])
+    if json.dumps(canon_decl(md), sort_keys=True) != json.dumps(canon_decl(rs["decl"]), sort_keys=True):
+        diff = [k for k in set(md) | set(rs["decl"]) if md.get(k) != rs["decl"].get(k)]
+        return (f"{what}: bridge struct differs in {diff}: model=" + json.dumps({k: md.get(k) for k in diff})[:400]
+                + " real=" + json.dumps({k: rs["decl"].get(k) for k in diff})[:400])
+    for k in ("order", "immFields", "defOrder", "accepts"):
+        if ms[k] != rs[k]:
+            return f"{what}: bridge {k} differs: model {ms[k]} real {rs[k]}"
+    for i, (rc, mc) in enumerate(zip(r.get("ctor", []), m.get("ctor", []))):
+        rr, mr = rc["res"], mc["res"]
+        kw = json.dumps(rc["kw"])[:300]
+        if "ok" in mr:
+            if "ok" not in rr:
+                return f"{what}: constructor {kw}: model accepts, real code raises {rr.get('err')}: {rr.get('msg')}"
+            if dump.canon(mr["ok"]) != dump.canon(rr["ok"]):
+                return (f"{what}: constructor {kw}: different instances: model=" + json.dumps(dump.canon(mr["ok"]))[:300]
+                        + " real=" + json.dumps(dump.canon(rr["ok"]))[:300])
+        elif "ok" in rr:
+            return f"{what}: constructor {kw}: model raises {mr['err']}, real code accepts"
+        elif rr["err"] != mr["err"] and rr["err"] not in mc.get("errs", []):
+            return f"{what}: constructor {kw}: exception class differs: model {mr['err']} {mc.get('errs')}, real {rr['err']}: {rr.get('msg')}"
+        msg = via_correspondence(what, kw, rc.get("via"), mc.get("via"), mc.get("errs", []))
+        if msg:
+            return msg
+    return None
+
+
+def via_correspondence(what, kw, rv, mv, errs):
+    """the other entry points (Entry / instantiateVia of Sem/DefineBridge.lean) on the same keyword arguments:
+    the validating ones decide like the model; the trusting ones succeed whenever the constructor does and are
+    refused (TypeError) exactly when the model refuses them, i.e. for an abstract class"""
+    if not rv or not mv:
+        return None
+    ctor_ok = "ok" in rv["ctor"]
+    for e in ENTRIES:
+        r, m = rv[e], mv[e]
+        if e in ("ctor", "fromOther"):
+            if ("ok" in r) != (m == "ok"):
+                return f"{what}: {e} {kw}: model {m}, real {r}"
+            if "err" in r and r["err"] != m and r["err"] not in errs:
+                return f"{what}: {e} {kw}: exception class differs: model {m} {errs}, real {r}"
+        elif m != "ok":
+            # trusted deserialization may fail on the document before it reaches the constructor: any refusal counts
+            if "ok" in r or (r["err"] != m and e != "deserTrusted"):
+                return f"{what}: {e} {kw}: model refuses ({m}), real {r}"
+        elif ctor_ok and e != "deserTrusted" and "ok" not in r:
+            return f"{what}: {e} {kw}: the constructor accepts these arguments but the trusting entry raises {r}"
+        elif "err" in r and r.get("abstract"):
+            return f"{what}: {e} {kw}: refused as abstract although the model's class is not abstract: {r}"
+    return None
+
+
+def canon_decl(d):
+    """defaults / enum literals inside a declaration in canonical wire form"""
+    if isinstance(d, list):
+        return [canon_decl(x) for x in d]
+    if isinstance(d, dict):
+        if d.get("k") == "struct" and d.get("defaults"):
+            d = dict(d, defaults=[[n, dump.canon(v)] for n, v in d["defaults"]])
+        return {k: canon_decl(v) for k, v in d.items()}
+    return d
 
 
 def tags(case, impl, model):
